@@ -53,6 +53,11 @@ def vcfg(nr, nc, **kw):
         ''.join(f'INVARIANT {i}\n' for i in INV_V) + 'PROPERTY DataFrame\nCHECK_DEADLOCK FALSE\n'
 
 
+def poolcfg(nr, nc, **kw):
+    return base_cfg(nr, nc, mode='value', methods='MPool', **kw) + 'INIT PoolInit\nNEXT NcNext\n' + \
+        'INVARIANT PoolKindsAgree\nINVARIANT V3Adjugate\nINVARIANT NcCommonMask\nINVARIANT EmitNC\nCHECK_DEADLOCK FALSE\n'
+
+
 def pcfg(nr, nc, **kw):
     return base_cfg(nr, nc, mode='proto', **kw) + 'INIT PInit\nNEXT NcNext\n' + \
         ''.join(f'INVARIANT {i}\n' for i in INV_P) + 'CHECK_DEADLOCK FALSE\n'
@@ -124,6 +129,40 @@ def run_value(ctx, name, nr, nc, nrand, **kw):
     if summary['pairs'] == 0 and 'subj' in kw.get('bys', 'BySubj').lower():
         raise MachineryError(f'{name}: no (stack, candidate) pair was emitted')
     return summary
+
+
+def _pool_job(args):
+    base, lines, nc, seed = args
+    out, n_eval = [], 0
+    for j, line in enumerate(lines):
+        rec = json.loads(line)
+        try:
+            o, n = N.check_pool(rec, nc, np.random.default_rng([seed, base + j]), S.FLAVOURS[(base + j) % 4])
+        except MachineryError as ex:
+            return ('machinery', str(ex))
+        out += o
+        n_eval += n
+    return (out, n_eval, len(lines))
+
+
+def run_pool(ctx, name, nr, nc, **kw):
+    """both pooling functions of the library against Pool(method, rows) of the specification"""
+    r = ctx.tlc('MC_NoiseCeiling', poolcfg(nr, nc, **kw), name=name, timeout=3000, workers=NPROC)
+    if not r.n_emitted:
+        raise MachineryError(f'{name}: TLC emitted nothing')
+    ctx.sample({'run': name, 'pool': next(r.iter_emitted())})
+    n = 0
+    with mp.Pool(NPROC) as pool:
+        for res in pool.imap_unordered(_pool_job, ((k * 100, chunk, nc, ctx.seed) for k, chunk in enumerate(r.iter_lines(100)))):
+            if res[0] == 'machinery':
+                raise MachineryError(res[1])
+            out, n_eval, cnt = res
+            ctx.count(n_eval)
+            n += cnt
+            for key, what, case in out:
+                ctx.violation(key, what, dict(case, run=name))
+    ctx.traces += n
+    ctx.extra.setdefault('pool_runs', {})[name] = n
 
 
 # ------------------------------------------------------------------ protocol configurations
@@ -299,13 +338,23 @@ def run(ctx):
     else:
         run_value(ctx, 'v_2x3', 2, 3, nrand, methods='MAll', valmax=3, candmax=4, thin_s=7, xforms='XfFew')
         run_value(ctx, 'v_3x3', 3, 3, nrand, methods='MAll', valmax=2, candmax=3, bys='ByBoth', thin_s=11, thin_g=47)
-        run_value(ctx, 'v_mask_a', 2, 4, nrand, methods='MAll', valmax=2, candmax=2, masks='Mask4a', thin_s=11)
+        run_value(ctx, 'v_mask_a', 2, 4, nrand, methods='MAll', valmax=2, candmax=2, masks='Mask4a', thin_s=17)
         run_value(ctx, 'v_cv_3x4', 3, 4, nrand, methods='MAll', valmax=1, candmax=1, thin_r=5, thin_s=7, cvcat='CvCat34',
                   gens='GensAll', perml=2)
         # sessions: every ordered pair of methods, one after the other, on ONE data object
         run_value(ctx, 'v_sess_2x3', 2, 3, 20, methods='MAll', valmax=2, candmax=1, thin_s=11, maxcalls=2)
-        run_value(ctx, 'v_sess_cv', 3, 4, 20, methods='MAll', valmax=1, candmax=1, thin_r=5, thin_s=31, cvcat='CvCat34',
+        run_value(ctx, 'v_sess_cv', 3, 4, 20, methods='MAll', valmax=1, candmax=1, thin_r=5, thin_s=67, cvcat='CvCat34',
                   gens='GensAll', perml=2, maxcalls=2)
+    # the two pooling functions (noise ceilings / fitters) against one Pool definition, every method they have
+    if thorough:
+        run_pool(ctx, 'pool_2x3', 2, 3, valmax=3)
+        run_pool(ctx, 'pool_3x3', 3, 3, valmax=2, thin_s=3)
+        run_pool(ctx, 'pool_2x4_mask', 2, 4, valmax=2, masks='Mask4ab', thin_s=7)
+        run_pool(ctx, 'pool_2x4', 2, 4, valmax=1, thin_s=1)
+    else:
+        run_pool(ctx, 'pool_2x3', 2, 3, valmax=3, thin_s=7)
+        run_pool(ctx, 'pool_2x4_mask', 2, 4, valmax=2, masks='Mask4a', thin_s=23)
+        run_pool(ctx, 'pool_2x4', 2, 4, valmax=1, thin_s=7)
     ctx.exhaustive = thorough
     if thorough:
         run_proto(ctx, 'p_3x4', 3, 4, gens='GensAll', variants='Var13', kmax=3)
